@@ -165,9 +165,68 @@ def abstract_classes(prog: Program):
     return out
 
 
+EPS_TAG = ("EPSILON", ())
+
+
+def automaton_of(tf_loc):
+    """Location of the automaton owning a transition-function location."""
+    root, path = tf_loc
+    if path and path[-1] == "_transition_function":
+        return (root, path[:-1])
+    return None
+
+
+def _hook_eclose(interp, fi, recv, args, kwargs, res, ev):
+    """`r.eclose(x)` is the declared source of the qualifier ECL(r): its body is validated separately as a closure
+    worklist over the epsilon successors (C01 obligation eclose-is-closure)."""
+    if recv is not None and len(recv.alias) == 1:
+        return res.with_quals({("ECL", next(iter(recv.alias)))})
+    return res
+
+
+def _hook_delta(interp, fi, recv, args, kwargs, res, ev):
+    """Reads of a transition function are tagged with the component they cover: symbol edges, epsilon edges."""
+    tags = set()
+    name = fi.name
+    for l in (recv.alias if recv is not None else ()):
+        owner = automaton_of(l)
+        if owner is None:
+            continue
+        if name == "__call__" and len(args) >= 2 and not (args[1].has_const() and args[1].const is None):
+            sym = args[1]
+            eps = (sym.types is not None and sym.types and sym.types <= {FA_EPSILON}) or EPS_TAG in sym.deps
+            only_eps = sym.types is not None and sym.types and sym.types <= {FA_EPSILON}
+            if eps:
+                tags.add(("DELTA_EPS", owner))
+            if not only_eps:
+                tags.add(("DELTA_SYM", owner))
+        else:
+            tags.add(("DELTA_EPS", owner))
+            tags.add(("DELTA_SYM", owner))
+    if not tags:
+        return res
+    res = res.with_deps(tags)
+    if res.elem is not None:
+        res = replace(res, elem=res.elem.with_deps(tags))
+    return res
+
+
+def _hook_epsilon_new(interp, fi, recv, args, kwargs, res, ev):
+    return res
+
+
 def install(interp):
-    """Parameter typing overrides for entry points."""
+    """Parameter typing overrides for entry points, qualifier sources and component tags."""
     prog = interp.prog
+    hooks = {ENFA + ".eclose": _hook_eclose}
+    for tfc in (TF, NTF):
+        for m in ("__call__", "get_edges", "get_transitions_from", "to_dict", "__iter__"):
+            hooks[tfc + "." + m] = _hook_delta
+    for h in hooks:
+        if h not in prog.functions:
+            raise AnalysisError("model: hooked function vanished: %s" % h)
+    interp.model_hooks = hooks
+    interp.ctor_tags = {FA_EPSILON: EPS_TAG}
     overrides = {}
     for (fq, pname), tys in PARAM_TYPES.items():
         if fq not in prog.functions:
